@@ -289,14 +289,14 @@ func (s *requestStream) ReadResponse() (*http.Response, error) {
 		res.ContentLength = 0
 	}
 	s.responseBody = respBody
-	if s.requestedGzip && ascii.EqualFold(res.Header.Get("Content-Encoding"), "gzip") {
+	if s.requestedGzip && ascii.EqualFold(compress.ContentEncoding(res.Header), "gzip") {
 		res.Header.Del("Content-Encoding")
 		res.Header.Del("Content-Length")
 		res.ContentLength = -1
 		s.responseBody = compress.NewGzipReader(respBody)
 		res.Uncompressed = true
 	} else if s.AutoDecompression && !s.isHead { // like HTTP/1 and HTTP/2: nothing to decode for HEAD
-		contentEncoding := res.Header.Get("Content-Encoding")
+		contentEncoding := compress.ContentEncoding(res.Header)
 		// only touch the response if the content coding is supported
 		if cr := compress.NewCompressReader(respBody, contentEncoding); cr != nil {
 			res.Header.Del("Content-Encoding")
